@@ -331,6 +331,39 @@ class _ProxyConn:
         return getattr(self._c, name)
 
 
+class _EagerProgressConn:
+    """real-mode connection proxy: SQLite's progress handler fires after every VM instruction
+    (as it would, sooner or later, in a statement over a large database)"""
+
+    def __init__(self, conn):
+        self._c = conn
+
+    def set_progress_handler(self, handler, n):
+        return self._c.set_progress_handler(handler, 1 if handler is not None else 0)
+
+    def __enter__(self):
+        self._c.__enter__()
+        return self
+
+    def __exit__(self, *a):
+        return self._c.__exit__(*a)
+
+    def __getattr__(self, name):
+        return getattr(self._c, name)
+
+
+def eager_progress(db):
+    """The period of SQLite's progress handler counts VM instructions, i.e. depends on the
+    size of the database.  The model runs the handler once per statement; in real mode the
+    period is set to one instruction so that a witness found on the model shows on a small
+    real database as well."""
+    if SYM:
+        return
+    import wn
+    import wn._db
+    wn._db.pool[wn.config.database_path] = _EagerProgressConn(db.conn)
+
+
 def fault_db():
     """(DB, Faults): a fresh database whose connection counts / fails SQL calls."""
     db = DB()
